@@ -1,0 +1,73 @@
+//go:build verif
+
+package server
+
+import "github.com/DrmagicE/gmqtt/pkg/packets"
+
+// VerifLimiter is a thin exported handle on the unexported packetIDLimiter, compiled only with
+// the `verif` build tag. It is used by the verification harness (/verif/harness/cmd/drive_limiter)
+// and adds no logic of its own: every method forwards to exactly one limiter method, or to the
+// lock / markUsedLocked* / unlock sequence pollInflights uses.
+type VerifLimiter struct{ p *packetIDLimiter }
+
+// VerifNewLimiter builds a limiter with the package-level constructor newPacketIDLimiter.
+func VerifNewLimiter(limit uint16) *VerifLimiter {
+	return &VerifLimiter{p: newPacketIDLimiter(limit)}
+}
+
+// VerifNewClientLimiter builds a limiter the way a connection does (client.newPacketIDLimiter).
+func VerifNewClientLimiter(limit uint16) *VerifLimiter {
+	c := &client{}
+	c.newPacketIDLimiter(limit)
+	return &VerifLimiter{p: c.pl}
+}
+
+// Poll forwards to pollPacketIDs (may block on the limiter's sync.Cond).
+func (v *VerifLimiter) Poll(max uint16) []packets.PacketID { return v.p.pollPacketIDs(max) }
+
+// Release forwards to release.
+func (v *VerifLimiter) Release(id packets.PacketID) { v.p.release(id) }
+
+// BatchRelease forwards to batchRelease.
+func (v *VerifLimiter) BatchRelease(ids []packets.PacketID) { v.p.batchRelease(ids) }
+
+// Close forwards to close.
+func (v *VerifLimiter) Close() { v.p.close() }
+
+// Mark is lock(); markUsedLocked(id) for every id; unlock() — the sequence of pollInflights.
+func (v *VerifLimiter) Mark(ids []packets.PacketID) {
+	v.p.lock()
+	defer v.p.unlock()
+	for _, id := range ids {
+		v.p.markUsedLocked(id)
+	}
+}
+
+// MarkSignal is lock(); markUsedLocked(id) for every id; unlockAndSignal().
+func (v *VerifLimiter) MarkSignal(ids []packets.PacketID) {
+	v.p.lock()
+	for _, id := range ids {
+		v.p.markUsedLocked(id)
+	}
+	v.p.unlockAndSignal()
+}
+
+// State reads used, limit, freePid and exit under the limiter's lock.
+func (v *VerifLimiter) State() (used, limit uint16, freePid packets.PacketID, exit bool) {
+	v.p.lock()
+	defer v.p.unlock()
+	return v.p.used, v.p.limit, v.p.freePid, v.p.exit
+}
+
+// Marked returns, under the lock, every offset in 0..65535 whose bit is set in lockedPid, ascending.
+func (v *VerifLimiter) Marked() []packets.PacketID {
+	v.p.lock()
+	defer v.p.unlock()
+	var r []packets.PacketID
+	for i := 0; i <= int(packets.MaxPacketID); i++ {
+		if v.p.lockedPid.Get(uint16(i)) == 1 {
+			r = append(r, packets.PacketID(i))
+		}
+	}
+	return r
+}
